@@ -30,7 +30,7 @@ PROVED_FAMILIES = ['plurality', 'ha_d_hondt', 'ha_sainte_lague', 'ha_imperiali',
                    'condorcet_winner', 'smith_set', 'schwartz_set', 'benham', 'tideman_alternative',
                    'approval_pav', 'approval_spav',
                    'score_mean', 'score_sum0', 'score_median', 'majority_judgment_plus', 'star', 'bucklin',
-                   'oklahoma', 'baldwin', 'stv_gregory_hare']
+                   'oklahoma', 'baldwin', 'stv_gregory_hare', 'stv_gregory_hare_strict', 'stv_gregory_imperiali']
 # proved for a part of the family's parameter space only: the rest stays listed as unproved
 PARTLY_PROVED = {}
 MULTIPLIERS = [2, 3, 7, 10 ** 6, 10 ** 25 + 7]
@@ -136,7 +136,7 @@ def _init_unproved():
 
 
 _init_unproved()
-NAME_MODES = ['str', 'int0', 'empty0', 'person']
+NAME_MODES = ['str', 'int0', 'empty0', 'person', 'tuple']
 REQUIRED_COUNTERS = (['score_fraction_counts', 'score_large_factor', 'scale', 'near_tie', 'equal_rational', 'beyond_2^53', 'modelled',
                       'lr_equal_remainders', 'pure_total_below_one', 'approval_later_seat_level', 'threshold_boundary', 'coef_tie', 'coef_as_decimal', 'coef_as_float', 'exact_half_or_quota', 'odd_total_half', 'even_factor']
                      + ['m:' + f for f in PROVED_FAMILIES])      # every proved family is also run through its Lean model
@@ -243,12 +243,12 @@ def generate(rng, tier):
     # Bucklin/Oklahoma: the first choice of exactly half of the voters, everybody's second choice wins in round 2;
     # STV-Gregory-Hare: a candidate holding exactly the Hare quota on first preferences
     for f in F:
-        if f.name in ('bucklin', 'oklahoma', 'stv_gregory_hare'):
+        if f.name in ('bucklin', 'oklahoma', 'stv_gregory_hare', 'stv_gregory_hare_strict', 'stv_gregory_imperiali'):
             for t in range(16 if tier == 'quick' else 160):
                 h = rng.randint(2, 9)
                 x = rng.randint(1, h - 1)
                 tags = ['scale', 'exact_half_or_quota']
-                if f.name == 'stv_gregory_hare':
+                if f.name.startswith('stv_gregory_'):
                     k = BIG_MULTIPLIERS[t % len(BIG_MULTIPLIERS)]
                     prof, n = [[[0], str(h)], [[1, 2], str(x)], [[2, 1], str(h - x)]], 2
                 else:
@@ -407,8 +407,9 @@ def model_line(case):
         if f in CONDORCET_SETS or f.startswith('condorcet_'):
             name = CONDORCET_SETS.get(f) or f[len('condorcet_'):]
             return {'op': 'c11_condorcet', 'name': name, 'profile': prof, 'votes': pairwise_of(prof), 'n': case['n']}
-        if f == 'stv_gregory_hare':
-            return {'op': 'stv_eval', 'method': 'gregory', 'quota': 'hare', 'accept_equal': True, 'mandatory': False, 'step': -1,
+        if f in ('stv_gregory_hare', 'stv_gregory_hare_strict', 'stv_gregory_imperiali'):
+            return {'op': 'stv_eval', 'method': 'gregory', 'quota': 'imperiali' if f.endswith('imperiali') else 'hare',
+                    'accept_equal': not f.endswith('_strict'), 'mandatory': False, 'step': -1,
                     'form': 'selector', 'votes': enc_stv(prof), 'n': case['n'], 'prev': [], 'max': [], 'draws': []}
         if f == 'bucklin' and case['n'] == 1 and 'one_seat' in case.get('_tags', ()):
             return {'op': 'c11_bucklin', 'votes': enc_ranked(prof), 'split': True}      # the one-seat model of C17
